@@ -389,7 +389,23 @@ def decoder_clause(model, rep, funcs):
                 names = backward_slice_names(f.node, g.test)
                 txt = norm_src(g.test)
                 okc = ("_n_rotations" in txt or "has_rotation" in txt or any(("has_rotation" in norm_src(x) or "_n_rotations" in norm_src(x)) for n_ in names for x in assigns.get(n_, [])))
-                rep.ob("S7", a, "the decode is selected by the model's rotation count", okc, f"condition `{txt}`", node=g.test, fn=f, clause="3 decoders")
+                detc = f"condition `{txt}`"
+                if okc:
+                    # every conjunct of the condition must follow from "several rotations": a conjunct on the number of templates skips the decode for one
+                    # template searched at K > 1 rotations (the flat index k*T + j = k is then written as the label)
+                    tx = g.test
+                    if isinstance(tx, ast.Name) and len(assigns.get(tx.id, [])) == 1:
+                        tx = assigns[tx.id][0]
+                    conj = tx.values if isinstance(tx, ast.BoolOp) and isinstance(tx.op, ast.And) else [tx]
+                    for cj in conj:
+                        if isinstance(cj, ast.Name) and len(assigns.get(cj.id, [])) == 1:
+                            cj = assigns[cj.id][0]
+                        ct = norm_src(cj)
+                        if ("template" in ct.lower()) and not ("rotation" in ct.lower()):
+                            okc = False
+                            detc = (f"condition `{txt}`: the conjunct `{ct}` skips the decode when one template is searched at several rotations - the label is "
+                                    f"then the raw candidate index k*T + j")
+                rep.ob("S7", a, "the decode is selected by the model's rotation count", okc, detc, node=g.test, fn=f, clause="3 decoders")
 
 
 def _is_major_decode(fn, idx: ast.expr, assigns):
@@ -431,6 +447,7 @@ def rank_clause(model, rep, funcs):
     if f is None:
         return
     assigns = local_assignments(f)
+    rotation_object_case(model, rep, f)
     rets = [n for n in walk_no_nested(f.node) if isinstance(n, ast.Return) and n.value is not None]
     retnames = {r.value.id for r in rets if isinstance(r.value, ast.Name)}
     yielded = [(n, n.value) for n in walk_no_nested(f.node) if isinstance(n, ast.Assign) and isinstance(n.targets[0], ast.Name) and n.targets[0].id in retnames]
@@ -477,6 +494,39 @@ def _rank2(v: ast.expr):
     return None, txt
 
 
+def rotation_object_case(model, rep, f):
+    """Type case `rotations` is a scipy Rotation (which may hold K rotations): evaluated on symbolic terms with isinstance(rotations, Rotation) assumed.  The (K, 4)
+    table of as_quat() must be returned as it is (np.atleast_2d for K = 1); stacking it as if it were one row of a list gives (1, K, 4) - the model then sees one
+    candidate and never rotates the template."""
+    from ..absint import Interp as _I
+    from ..domains.terms import T, TermDomain, callee_name, strip, subterms
+    dom = TermDomain(assume_isinstance={"rotations": "Rotation"}, summarise=("_seq_of_max_and_step_to_quat",))
+    it = _I(model, dom, depth=0)
+    pn = f.param_names()[0] if f.param_names() else "rotations"
+    dom.assume_isinstance = {pn: "Rotation"}
+    try:
+        out = it.run(f, args={pn: T("param", (pn,))})
+    except Exception as e:  # pragma: no cover
+        rep.note(f"normalize_rotations could not be evaluated on terms ({e!r})")
+        return
+    core = strip(out, ext_wrappers=("asarray", "astype", "ascontiguousarray", "copy"))
+    if not isinstance(core, T):
+        return
+    nm = callee_name(core)
+    quat_of_param = any(s_.op == "call" and callee_name(s_) == "as_quat" and isinstance(s_.args[0], T) and s_.args[0].op == "attr" and
+                        isinstance(s_.args[0].args[0], T) and s_.args[0].args[0].op == "param" for s_ in subterms(core))
+    rep.instance("A.rank", f.loc() + " [Rotation object]")
+    if nm in ("atleast_2d", "reshape") and quat_of_param:
+        rep.ob("A", f.anchor, "a Rotation object (K >= 1 rotations) is returned as its (K, 4) quaternion table", True, "", node=f.node, fn=f, clause="4 rotation set",
+               stmt="Rotation object case")
+    elif nm in ("stack", "vstack", "array", "concatenate") and any(s_.op == "elem" for s_ in subterms(core)):
+        rep.ob("A", f.anchor, "a Rotation object (K >= 1 rotations) is returned as its (K, 4) quaternion table", False,
+               f"with `{pn}` a Rotation object the result is `{core!r}`"[:300] + ": the object is treated as one row of a list, a Rotation holding K rotations becomes "
+               "(1, K, 4) instead of (K, 4)", node=f.node, fn=f, clause="4 rotation set", stmt="Rotation object case")
+    else:
+        rep.note(f"Rotation object case of normalize_rotations evaluates to {core!r}: not classified")
+
+
 # --------------------------------------------------------------------------- clause 5: width of the label column, rotation-range convention, option forwarding
 def misc_clause(model, rep, funcs):
     from ..match import Matcher
@@ -499,11 +549,67 @@ def misc_clause(model, rep, funcs):
     except Exception:
         g = None
     if g is not None:
+        if angle_grid_obligations(model, rep, g, "4 rotation set") == 0:
+            rep.note("angle grid: no np.linspace(a, b, count) inside a loop over (max, step) pairs - the grid rule was not applied")
         rep.instance("A.rank", g.loc())
         ok = Matcher(g).has("from_euler_xyz_coords(np.array($a), 'zyx', degrees=True)")
         rep.ob("TABLE", g.anchor, "(max, step) ranges are given for the z, y, x axes in that order: the candidates are built by the zyx-coordinate Euler reader", ok,
                "" if ok else "the ranges no longer go through from_euler_xyz_coords(angs, 'zyx', degrees=True): the first range rotates about another axis than z",
                node=g.node, fn=g, clause="4 rotation set", stmt="def _seq_of_max_and_step_to_quat convention")
+
+
+def angle_grid_obligations(model, rep, g, clause):
+    """A (max, step) range means the rotations k * step for |k * step| <= max (the documented meaning; it always contains 0, the identity).  The grid passed to
+    np.linspace(a, b, c) is therefore symmetric (a + b == 0) with spacing (b - a) / (c - 1) == step - decided on the affine forms of a, b, c."""
+    from fractions import Fraction
+    from ..domains.affine import A as _A
+    n = 0
+    for lp in walk_no_nested(g.node):
+        if not (isinstance(lp, ast.For) and isinstance(lp.target, ast.Tuple) and len(lp.target.elts) == 2 and all(isinstance(e, ast.Name) for e in lp.target.elts)):
+            continue
+        mx, st = (e.id for e in lp.target.elts)
+        lins = [c for c in ast.walk(lp) if isinstance(c, ast.Call) and (dotted(c.func) or "").rsplit(".", 1)[-1] == "linspace" and len(c.args) >= 3]
+        for c in lins:
+            n += 1
+            rep.instance("A.grid", g.loc(c))
+            dom = AffineDomain(model, positive_syms={st}, nonneg_syms={mx})
+            it = Interp(model, dom, depth=0)
+            env = {mx: dom.sym(mx), st: dom.sym(st)}
+            # straight-line definitions that precede the call in its block
+            for blk in ast.walk(lp):
+                body = getattr(blk, "body", None)
+                for seq in (body, getattr(blk, "orelse", None)):
+                    if isinstance(seq, list) and any(any(x is c for x in ast.walk(s_)) for s_ in seq):
+                        for s_ in seq:
+                            if any(x is c for x in ast.walk(s_)):
+                                break
+                            if isinstance(s_, ast.Assign) and len(s_.targets) == 1 and isinstance(s_.targets[0], ast.Name):
+                                try:
+                                    env[s_.targets[0].id] = it.eval(s_.value, env, g)
+                                except Exception:
+                                    pass
+            try:
+                a, b, cnt = (it.eval(x, env, g) for x in c.args[:3])
+            except Exception:
+                a = b = cnt = None
+            if not all(isinstance(x, _A) for x in (a, b, cnt)):
+                rep.ob("A", g.anchor, "the angle grid of a (max, step) range is evaluated symbolically", None, f"`{norm_src(c)}`", node=c, fn=g, clause=clause,
+                       stmt="angle grid")
+                continue
+            stp = dom.sym(st)
+            span = dom.add(b, dom.neg(a))
+            want = _A(stp.num * dom.add(cnt, dom.const(None, -1, None)).num, stp.den * cnt.den)
+            for what, lhs, rhs in (("spacing (b - a) == step * (count - 1)", span, want), ("symmetric about the identity: a + b == 0", dom.add(a, b), dom.const(None, 0, None))):
+                ok = dom.proves_equal(lhs, rhs)
+                det = ""
+                if not ok:
+                    diff = dom.add(lhs, dom.neg(rhs))
+                    w = dom.find_witness(diff, (), tol=Fraction(1, 1000)) or dom.find_witness(dom.neg(diff), (), tol=Fraction(1, 1000))
+                    ok, det = (False, f"`{norm_src(c)}`: for {w[0]} the two sides differ by {abs(w[1]):.3f} degrees - the searched angles are not the multiples of "
+                               f"`{st}`") if w is not None else (None, f"cannot prove it for `{norm_src(c)}`")
+                rep.ob("A", g.anchor, f"(max, step) range: the candidate angles are the multiples of step within +-max - {what}", ok, det, node=c, fn=g,
+                       clause=clause, stmt=f"angle grid {what.split()[0]}")
+    return n
 
 
 def forwarding_obligations(model, rep, fn, clause):
